@@ -889,6 +889,19 @@ func genC06(r *Rng, e *Emitter, n int) {
 	for _, c := range corpus {
 		emitC06(e, "corpus", c)
 	}
+	// texts that are valid but for one ordinate, which is something a general-purpose number reader
+	// would take (and WKT's number grammar may or may not): in the compact and the spaced spellings
+	lookalikes := []string{"inf", "-inf", "+inf", "Inf", "-Inf", "INF", "Infinity", "-Infinity", "infinity", "nan", "NaN", "-nan",
+		"0x10", "0x1p-2", "0X1P4", "-0x1.8p1", "1_000", "1_0.5", "1e", "1e+", "1e-", ".5", "5.", "-.5", "+1", "+.5", "1E5", "1e+5", "0e0",
+		"00012", "1e999", "-1e999", "1e-999", "1d5", "1f", "0b101", "0o17", "1,5", "1e5.5", "٣", "１"}
+	for _, la := range lookalikes {
+		for _, tmpl := range []string{"POINT(%s 0)", "POINT(1 %s)", "POINT (%s 2)", "POINT( 1 %s )", "POINT(%s 1 2)", "POINT(1 2 %s)",
+			"POINT(1 2 3 %s)", "POINT Z(1 %s 3)", "POINT Z (%s 2 3)", "POINTM(1 2 %s)", "POINT ZM(1 2 3 %s)", "point(%s 0)", "Point(1 %s)",
+			"LINESTRING(%s 1, 2 3)", "LINESTRING(0 1, 2 %s)", "MULTIPOINT(%s 2)", "MULTIPOINT((1 %s))", "POLYGON((0 0, 1 0, 1 %s, 0 0))",
+			"GEOMETRYCOLLECTION(POINT(%s 0))"} {
+			emitC06(e, "lookalike", fmt.Sprintf(tmpl, la))
+		}
+	}
 	// error positions far from anything: incomplete and complete-but-wrong texts followed / preceded
 	// by long runs of one white-space byte (the error message trims its snippet around the column)
 	for _, ws := range []string{"\r", " ", "\t", "\v", "\f", "\xa0", "\x85", "\r\n", "\n"} {
